@@ -163,6 +163,12 @@ func registryMethods(r core.MetricRegistry, flush func()) []c17Method {
 	}
 	return []c17Method{
 		{"RegisterDistribution", true, func(g, a int) { add(r.RegisterDistribution(fmt.Sprintf("d%d", a%5), "t:1")) }},
+		{"RegisterDistributionSpareTags", true, func(g, a int) {
+			// registration tags in a slice with spare capacity (built with append, as callers do)
+			tags := append(make([]string, 0, 8), "t:1", "u:2")
+			add(r.RegisterDistribution(fmt.Sprintf("ds%d", a%5), tags...))
+			add(r.RegisterCount(fmt.Sprintf("cs%d", a%5), tags...))
+		}},
 		{"RegisterTiming", true, func(g, a int) { add(r.RegisterTiming(fmt.Sprintf("t%d", a%5))) }},
 		{"RegisterCount", true, func(g, a int) { add(r.RegisterCount(fmt.Sprintf("c%d", a%5))) }},
 		{"RegisterGauge", true, func(g, a int) {
@@ -181,6 +187,17 @@ func registryMethods(r core.MetricRegistry, flush func()) []c17Method {
 			mu.Unlock()
 			if l != nil {
 				l.AddSample(float64(a % 50))
+			}
+		}},
+		{"AddSampleWithTags", true, func(g, a int) {
+			mu.Lock()
+			var l core.MetricSampleListener
+			if len(ls) > 0 {
+				l = ls[a%len(ls)]
+			}
+			mu.Unlock()
+			if l != nil {
+				l.AddSample(float64(a%50), fmt.Sprintf("k:%d", g), "w:x") // per-sample tags
 			}
 		}},
 		{"Start", true, func(g, a int) { r.Start() }},
